@@ -114,6 +114,94 @@ theorem periodContiguous_all (l : List Snap) (hc : ∀ s ∈ l, s.CivilOk) (hs :
    periodContiguous_of_convex _ _ convex_hour l (fun s hm => keyHour_civil s (hc s hm)) hs,
    periodContiguous_of_convex _ _ convex_minute l (fun s hm => keyMinute_civil s (hc s hm)) hs⟩
 
+/-! ### runs of equal keys = distinct keys, when equal keys are adjacent -/
+
+/-- number of first occurrences in `ks` of keys not in `seen`: with `seen = []` the number of distinct keys -/
+def countNew {κ : Type} [DecidableEq κ] : List κ → List κ → Nat
+  | _, [] => 0
+  | seen, a :: t => (if a ∈ seen then 0 else 1) + countNew (seen ++ [a]) t
+
+/-- the number of distinct period keys of a list of snapshots -/
+def distinctPeriods {κ : Type} [DecidableEq κ] (key : Snap → κ) (l : List Snap) : Nat := countNew [] (l.map key)
+
+def prevKey {κ : Type} (key : Snap → κ) (m : List Snap) (i : Nat) : Option κ :=
+  if i = 0 then none else (m[i - 1]?).map key
+
+theorem prev_iff_seen {κ : Type} [DecidableEq κ] (key : Snap → κ) (m : List Snap) (hc : PeriodContiguous key m)
+    (i : Nat) (hi : i < m.length) :
+    prevKey key m i = some (key m[i]) ↔ key m[i] ∈ (m.take i).map key := by
+  constructor
+  · intro h
+    unfold prevKey at h
+    split at h
+    · cases h
+    · rename_i h0
+      have hlt : i - 1 < m.length := by omega
+      rw [List.getElem?_eq_getElem hlt] at h
+      simp only [Option.map_some, Option.some.injEq] at h
+      rw [← h]
+      apply List.mem_map_of_mem
+      rw [List.mem_take_iff_getElem]
+      exact ⟨i - 1, by omega, rfl⟩
+  · intro h
+    obtain ⟨s, hs, hk⟩ := List.mem_map.1 h
+    rw [List.mem_take_iff_getElem] at hs
+    obtain ⟨j, hj, rfl⟩ := hs
+    have hji : j < i := by omega
+    unfold prevKey
+    have h0 : ¬ i = 0 := by omega
+    simp only [h0, if_false]
+    have hlt : i - 1 < m.length := by omega
+    rw [List.getElem?_eq_getElem hlt]
+    simp only [Option.map_some, Option.some.injEq]
+    by_cases hj1 : j = i - 1
+    · subst hj1; exact hk
+    · have := hc j (i - 1) i (by omega) (by omega) hi hk
+      exact this
+
+theorem runs_eq_countNew_aux {κ : Type} [DecidableEq κ] (key : Snap → κ) (m : List Snap)
+    (hc : PeriodContiguous key m) : ∀ (n i : Nat), i + n = m.length →
+      runsFrom key (prevKey key m i) (m.drop i) = countNew ((m.take i).map key) ((m.drop i).map key) := by
+  intro n
+  induction n with
+  | zero =>
+    intro i hi
+    have : m.drop i = [] := List.drop_eq_nil_of_le (by omega)
+    simp [this, runsFrom, countNew]
+  | succ n ih =>
+    intro i hi
+    have hlt : i < m.length := by omega
+    rw [List.drop_eq_getElem_cons hlt]
+    simp only [runsFrom, List.map_cons, countNew]
+    have hp : prevKey key m (i + 1) = some (key m[i]) := by
+      unfold prevKey
+      simp [List.getElem?_eq_getElem hlt]
+    have ht : (m.take (i + 1)).map key = (m.take i).map key ++ [key m[i]] := by
+      rw [List.take_add_one, List.getElem?_eq_getElem hlt, List.map_append]; rfl
+    have := ih (i + 1) (by omega)
+    rw [hp, ht] at this
+    rw [this]
+    congr 1
+    by_cases h : prevKey key m i = some (key m[i])
+    · have := (prev_iff_seen key m hc i hlt).1 h
+      rw [if_pos h, if_pos this]
+    · have : ¬ key m[i] ∈ (m.take i).map key := fun hm => h ((prev_iff_seen key m hc i hlt).2 hm)
+      rw [if_neg h, if_neg this]
+
+/-- when equal keys are adjacent the number of runs is the number of distinct keys -/
+theorem runs_eq_distinct {κ : Type} [DecidableEq κ] (key : Snap → κ) (m : List Snap)
+    (hc : PeriodContiguous key m) : runsFrom key none m = distinctPeriods key m := by
+  have := runs_eq_countNew_aux key m hc m.length 0 (by omega)
+  simpa [prevKey, distinctPeriods] using this
+
+theorem periodContiguous_take {κ : Type} (key : Snap → κ) (l : List Snap) (hc : PeriodContiguous key l) (n : Nat) :
+    PeriodContiguous key (l.take n) := by
+  intro i j k hij hjk hk h
+  have hk' : k < l.length := by
+    have := List.length_take_le' n l; omega
+  simp only [List.getElem_take] at h ⊢
+  exact hc i j k hij hjk hk' h
+
 theorem ofInstant_civilOk (t off : Int) (id : String) (tree : Nat) (tags : List String) (del : DeleteOpt) :
     (Snap.ofInstant t off id tree tags del).CivilOk :=
   ⟨rfl, rfl, rfl, rfl, rfl, rfl, rfl⟩
